@@ -8,21 +8,8 @@ import ChibiVerif.Lemmas.InitSimStruct
 namespace ChibiVerif.InitSpec
 open ChibiVerif.Init
 
-theorem growable_false' {root : Ty} {top : Bool} {p : List Nat} {t : Ty} (ho : tyOk root = true) (ht : subTy root p = some t)
-    (hok : subOk t = true) : growable root top p = false := by
-  cases root with
-  | scalar => simp [growable]
-  | array => simp [growable]
-  | inc e' =>
-    cases p with
-    | nil => simp [subTy] at ht; subst ht; simp [subOk] at hok
-    | cons k p => simp [growable]
-  | struct ms sz fl =>
-    simp only [tyOk, subOk, Bool.and_eq_true, Bool.not_eq_true'] at ho
-    rw [ho.1]; simp [growable]
-  | union ms sz fl =>
-    simp only [tyOk, subOk, Bool.and_eq_true, Bool.not_eq_true'] at ho
-    rw [ho.1.1]; simp [growable]
+theorem growable_false' {root : Ty} {top : Bool} {obj : Init} {p : List Nat} {t : Ty} {c : Init} (h : At root top obj p t c) :
+    growable root top p = false := h.ng
 
 /-- what a brace-enclosed list for a subobject of type `t` whose node is `c` must deliver: the parser's node `c'` and rest -/
 def BraceSim (t : Ty) (c : Init) (inner : List ITok) (c' : Init) (rest : List ITok) : Prop :=
@@ -31,11 +18,11 @@ def BraceSim (t : Ty) (c : Init) (inner : List ITok) (c' : Init) (rest : List IT
 
 /-- `{ … }` for the subobject at `p` (p19: the whole subobject; the parser re-uses the node, which is zero if untouched) -/
 theorem init2_brace {root : Ty} {top : Bool} {obj : Init} {p : List Nat} {t : Ty} {c : Init} {inner : List ITok} {c' : Init}
-    {rest : List ITok} (hA : At root obj p t c) (hb : hasExpr c = false → BraceSim t c inner c' rest) :
+    {rest : List ITok} (hA : At root top obj p t c) (hb : hasExpr c = false → BraceSim t c inner c' rest) :
     ∀ g fl, ∃ g', Imp (initItem g root top obj [p] (.lbrace :: inner) fl) (After root top obj p c' rest fl g') := by
   intro g fl
   refine ⟨g, fun res hres hcl => ?_⟩
-  rw [initItem_brace _ _ _ _ _ _ _ hA.sub (growable_false' hA.rootOk hA.sub hA.ok)] at hres
+  rw [initItem_brace _ _ _ _ _ _ _ hA.sub hA.ng] at hres
   obtain ⟨sub, hsub, hres⟩ := bind_eq_ok hres
   obtain ⟨obj', hmod, hfin⟩ := bind_eq_ok hres
   have hfl := initList_clean _ _ _ _ _ _ _ _ _ hfin hcl
@@ -47,7 +34,7 @@ theorem init2_brace {root : Ty} {top : Bool} {obj : Init} {p : List Nat} {t : Ty
   have hzero : braceStart t = c := by rw [hz]; rfl
   rw [hzero] at hsub
   obtain ⟨h1, h2, h3⟩ := hb hne false g Flags.none sub hsub hsubcl
-  rw [h1, modifyAt_eq root top _ p root [] obj t c hA.rootOk hA.shp hA.sub hA.get hsw] at hmod
+  rw [h1, hA.modifyAt_eq _ hsw] at hmod
   simp only [pure_bind'] at hmod
   cases hmod
   rw [h2, h3, htch, hxa, Flags.join_false, Flags.join_none] at hfin
@@ -55,7 +42,7 @@ theorem init2_brace {root : Ty} {top : Bool} {obj : Init} {p : List Nat} {t : Ty
 
 /-- an initializer without braces that initialises the subobject at `p` as a whole (p11, p13, p14) -/
 theorem init2_stop {root : Ty} {top : Bool} {obj : Init} {p : List Nat} {t : Ty} {c : Init} {tok : ITok} {r : List ITok} {c' : Init}
-    (hA : At root obj p t c) (hb : tok ≠ .lbrace) (hs : stopsAt t tok = true)
+    (hA : At root top obj p t c) (hb : tok ≠ .lbrace) (hs : stopsAt t tok = true)
     (hst : (isStrTok tok = true → (∀ sz k, t ≠ .scalar sz k) → hasExpr c = false) → storeTok root top tok p t c = .ok c') :
     ∀ g fl, ∃ g', Imp (initItem g root top obj [p] (tok :: r) fl) (After root top obj p c' r fl g') := by
   intro g fl
@@ -77,10 +64,10 @@ theorem init2_stop {root : Ty} {top : Bool} {obj : Init} {p : List Nat} {t : Ty}
       | struct => simpa using hstr
       | union => simpa using hstr
     exact (touched_false p obj c hA.get this).1)
-  rw [modifyAt_eq root top _ p root [] obj t c hA.rootOk hA.shp hA.sub hA.get hsw, hstore] at hmod
+  rw [hA.modifyAt_eq _ hsw, hstore] at hmod
   simp only [ok_bind] at hmod
   cases hmod
-  have : tokFlags root obj tok p = ⟨false, false, false⟩ := by
+  have : tokFlags root obj tok p = ⟨false, false, false, false⟩ := by
     simp only [tokFlags, hstr, hsw, hxa, Bool.or_self]
   rw [this, Flags.join_false] at hfin
   exact hfin
@@ -164,10 +151,10 @@ theorem braceSim_step {f : Nat} (ih : Sim f) {t : Ty} {c : Init} {inner : List I
     obtain ⟨rest', hrb, h⟩ := bind_eq_ok h
     cases h
     have hend := strip_comma_rbrace hrb
-    have hAr : At (.scalar sz k) (.leaf e) [] (.scalar sz k) (.leaf e) := At.root ho hs
-    obtain ⟨hs', _⟩ := ih.init2 (top := false) hAr hinit
+    have hAr : ∀ top, At (.scalar sz k) top (.leaf e) [] (.scalar sz k) (.leaf e) := fun _ => At.root ho hs
+    obtain ⟨hs', _⟩ := ih.init2 (top := false) (hAr false) hinit
     refine ⟨hs', fun hne top g fl res hres hcl => ?_⟩
-    obtain ⟨_, himp⟩ := ih.init2 (top := top) hAr hinit
+    obtain ⟨_, himp⟩ := ih.init2 (top := top) (hAr top) hinit
     have fin : ∀ g1 cur first, initList g1 (.scalar sz k) top c' cur tok first fl = .ok res →
         defaultMember (.scalar sz k) (unflex res.obj) = c' ∧ res.rest = rest ∧ res.fl = fl := by
       intro g1 cur first hh
@@ -187,7 +174,7 @@ theorem braceSim_step {f : Nat} (ih : Sim f) {t : Ty} {c : Init} {inner : List I
         subst e1 e2
         exact fin (g+1) _ _ hres
       | none =>
-        rw [initList_item _ _ _ _ _ _ _ _ hce] at hres
+        replace hres := initList_item_imp _ _ _ _ _ _ _ _ hce hres hcl
         simp only [↓reduceIte, pure_bind'] at hres
         by_cases hdg : isDesg inner = true
         · exfalso
@@ -369,7 +356,7 @@ theorem initItem_brace_multi (g : Nat) (root : Ty) (top : Bool) (obj : Init) (p0
           >>= fun obj' =>
           initList g root top obj' (next root top (p0 :: rest).getLast!.reverse) sub.rest false
             ((fl.join ⟨(p0 :: rest).any (touched obj), (p0 :: rest).any (exprAbove obj),
-                decide ((p0 :: rest).length > 1) && !siblings (p0 :: rest)⟩).join sub.fl)) := by
+                decide ((p0 :: rest).length > 1) && !siblings (p0 :: rest), false⟩).join sub.fl)) := by
   unfold initItem initItemWith
   simp only [ht, hg, Bool.false_eq_true, ↓reduceIte, pure_bind']
 
@@ -387,7 +374,7 @@ theorem initItem_tok_multi (g : Nat) (root : Ty) (top : Bool) (obj : Init) (p0 :
           initList g root top obj' (next root top targets.getLast!.reverse) r false
             (fl.join ⟨(isStrTok tok && targets.any (nonScalarTouched root obj))
                 || targets.any (switchesUnion obj), targets.any (exprAbove obj),
-              decide ((p0 :: rest).length > 1) && !(siblings (p0 :: rest) && targets == (p0 :: rest))⟩)) := by
+              decide ((p0 :: rest).length > 1) && !(siblings (p0 :: rest) && targets == (p0 :: rest)), false⟩)) := by
   unfold initItem initItemWith
   cases tok <;> first | exact absurd rfl hb | rfl
 
@@ -397,7 +384,7 @@ theorem initItem_tok_multi (g : Nat) (root : Ty) (top : Bool) (obj : Init) (p0 :
 theorem range_fold {f : Nat} {root : Ty} {top : Bool} {elem : Ty} {len : Nat} {p : List Nat} (tok tokR : List ITok)
     (fP : List Nat → Ty → Init → Except Fail Init) :
     ∀ (js : List Nat) (obj : Init) (cs : List Init) (t0 : List ITok) (c1 : Init) (tok2 : List ITok),
-    At root obj p (.array elem len) (.arr cs) → js.Nodup → (∀ j ∈ js, j < len) →
+    At root top obj p (.array elem len) (.arr cs) → js.Nodup → (∀ j ∈ js, j < len) →
     (∀ j ∈ js, ∀ c v t, cs[j]? = some c → designation f elem tok c = .ok (v, t) →
       fP (p ++ [j]) elem c = .ok v ∧ t = tokR ∧ shaped elem v = true) →
     (∀ j ∈ js, switchesUnion obj (p ++ [j]) = false) →
@@ -436,7 +423,7 @@ theorem range_fold {f : Nat} {root : Ty} {top : Bool} {elem : Ty} {len : Nat} {p
       (fun _ => hM1) hfold
     refine ⟨csF, h1, ?_, fun _ => ?_, fun h => absurd h (List.cons_ne_nil _ _), h5⟩
     · rw [List.map_cons, List.foldlM_cons,
-        modifyAt_eq root top _ (p ++ [j0]) root [] obj elem c hA.rootOk hA.shp hAj.sub hAj.get (hsw j0 (by simp)), hf]
+        hAj.modifyAt_eq _ (hsw j0 (by simp)), hf]
       simp only [ok_bind, pure_bind']
       rw [h2, e1, setAtM_over hA]
     · by_cases hjs : js' = []
@@ -633,8 +620,8 @@ theorem range_core {f : Nat} (ih : Sim f) {root : Ty} {top : Bool} {obj : Init} 
               ((List.range' b (m+1)).map (fun k => p ++ [k])).any (exprAbove obj),
               decide (((List.range' b (m+1)).map (fun k => p ++ [k])).length > 1) &&
                 !(siblings ((List.range' b (m+1)).map (fun k => p ++ [k])) &&
-                  ((List.range' b (m+1)).map (fun k => p ++ [k])) == ((List.range' b (m+1)).map (fun k => p ++ [k])))⟩ : Flags)
-              = ⟨false, false, false⟩ := by
+                  ((List.range' b (m+1)).map (fun k => p ++ [k])) == ((List.range' b (m+1)).map (fun k => p ++ [k]))), false⟩ : Flags)
+              = ⟨false, false, false, false⟩ := by
             rw [hstr, hsw, hxa, hwd]; rfl
           rw [hlast', hfl0, Flags.join_false] at hfin
           rw [h3]
@@ -642,7 +629,7 @@ theorem range_core {f : Nat} (ih : Sim f) {root : Ty} {top : Bool} {obj : Init} 
 
 /-- `range_core` for an array of known length inside any object -/
 theorem range_whole {f : Nat} (ih : Sim f) {root : Ty} {top : Bool} {obj : Init} {p : List Nat} {elem : Ty} {len : Nat}
-    {cs : List Init} (hA : At root obj p (.array elem len) (.arr cs)) (b n : Nat) (hn : 2 ≤ n) (hbn : b + n ≤ len)
+    {cs : List Init} (hA : At root top obj p (.array elem len) (.arr cs)) (b n : Nat) (hn : 2 ≤ n) (hbn : b + n ≤ len)
     (tok : List ITok) (c1 : Init) (tok2 : List ITok) (hfold : rangeLoop f elem tok (List.range' b n) cs = .ok (c1, tok2)) :
     ∀ g d fl res, afterDesg g root top obj fl (desigPaths root top d ((List.range' b n).map (fun k => p ++ [k])) tok) = .ok res →
       res.fl.clean = true →
@@ -656,11 +643,11 @@ theorem range_whole {f : Nat} (ih : Sim f) {root : Ty} {top : Bool} {obj : Init}
     obtain ⟨cs', h1, h2, _⟩ := arr_of_shaped hA.shapedc; cases h1; exact h2
   have hchild : ∀ j ∈ List.range' b (m+1), ∃ c, cs[j]? = some c :=
     fun j hj => ⟨cs[j]'(hl ▸ hjs j hj), List.getElem?_eq_getElem _⟩
-  have hAj : ∀ j ∈ List.range' b (m+1), ∀ c, cs[j]? = some c → At root obj (p ++ [j]) elem c :=
+  have hAj : ∀ j ∈ List.range' b (m+1), ∀ c, cs[j]? = some c → At root top obj (p ++ [j]) elem c :=
     fun j _ c hc => hA.child (childTy_arr elem len j) (by simpa [Init.children] using hc)
   obtain ⟨objF, h1, h2⟩ := range_core ih (top := top) (obj := obj) (p := p) (cs := cs) hoe b m (by omega)
     (fun j hj => by obtain ⟨c, hc⟩ := hchild j hj; exact (hAj j hj c hc).sub)
-    (fun j hj => by obtain ⟨c, hc⟩ := hchild j hj; exact growable_false' hA.rootOk (hAj j hj c hc).sub hoe)
+    (fun j hj => by obtain ⟨c, hc⟩ := hchild j hj; exact (hAj j hj c hc).ng)
     hchild
     (fun j hj c hc => (hAj j hj c hc).shapedc)
     (fun j hj c hc ht => (touched_false _ obj c (hAj j hj c hc).get ht).1)
@@ -680,7 +667,7 @@ theorem range_whole {f : Nat} (ih : Sim f) {root : Ty} {top : Bool} {obj : Init}
 theorem sim_arr1loop {f : Nat} (ih : Sim f) : Arr1LoopSt (f+1) := by
   intro elem len c toks i first c' rest ho hs h
   obtain ⟨cs, rfl, hlen, hall⟩ := arr_of_shaped hs
-  have hA := At.root ho hs
+  have hA := fun top => At.root (top := top) ho hs
   rw [arrayInit1Loop] at h
   cases hce : consumeEnd toks with
   | some rest0 =>
@@ -707,7 +694,8 @@ theorem sim_arr1loop {f : Nat} (ih : Sim f) : Arr1LoopSt (f+1) := by
       cases g with
       | zero => exact Imp.of_error rfl
       | succ g =>
-        rw [initList_item _ _ _ _ _ _ _ _ hce, hfirst, ok_bind]
+        refine Imp.of_item hce ?_
+        rw [hfirst, ok_bind]
         have hdg : isDesg toks1 = true := by
           cases toks1 with
           | nil => simp [isBracket] at hbr
@@ -726,7 +714,7 @@ theorem sim_arr1loop {f : Nat} (ih : Sim f) : Arr1LoopSt (f+1) := by
           obtain ⟨⟨ca', t2⟩, hd, hstep⟩ := bind_eq_ok hstep
           cases hstep
           have hk : (Init.arr cs).children[a.toNat]? = some ca := getChild_ok hca
-          have hAa := hA.child (childTy_arr elem len a.toNat) hk
+          have hAa := (hA top).child (childTy_arr elem len a.toNat) hk
           obtain ⟨hsa, himp1⟩ := ih.desg (top := top) hAa hd
           obtain ⟨g1, h1'⟩ := himp1 g (tok.length + 1) fl
           simp only [List.nil_append, After, List.reverse_cons, List.reverse_nil, next_snoc, setAtM_one_arr] at h1'
@@ -734,11 +722,11 @@ theorem sim_arr1loop {f : Nat} (ih : Sim f) : Arr1LoopSt (f+1) := by
         rcases arrayDesignator_ok had with ⟨a, rfl, h0, h1, hb, he⟩ | ⟨a, a2, rfl, h0, h1, h2, hb, he⟩
         · rw [hlen] at h1
           simp only [List.length_cons]
-          rw [desigPaths_idx_arr (p := []) _ _ rfl (growable_false hA.rootOk rfl) h0 h1]
+          rw [desigPaths_idx_arr (p := []) _ _ rfl (growable_false (hA top)) h0 h1]
           exact single a h0 h1 hb he
         · rw [hlen] at h2
           simp only [List.length_cons]
-          rw [desigPaths_range_arr (p := []) _ _ rfl (growable_false hA.rootOk rfl) h0 h1 h2]
+          rw [desigPaths_range_arr (p := []) _ _ rfl (growable_false (hA top)) h0 h1 h2]
           by_cases heq : a2 = a
           · subst heq
             have : a2.toNat + 1 - a2.toNat = 1 := by omega
@@ -746,7 +734,7 @@ theorem sim_arr1loop {f : Nat} (ih : Sim f) : Arr1LoopSt (f+1) := by
             exact single a2 h0 h2 hb he
           · intro res hres hcl
             subst hb he
-            have hrw := range_whole ih hA a.toNat (a2.toNat + 1 - a.toNat) (by omega) (by omega) tok c1 tok2 hfold
+            have hrw := range_whole ih (hA top) a.toNat (a2.toNat + 1 - a.toNat) (by omega) (by omega) tok c1 tok2 hfold
               g (tok.length + 1) fl res hres hcl
             simp only [setAtM] at hrw
             have hidx : a.toNat + (a2.toNat + 1 - a.toNat) = a2.toNat + 1 := by omega
@@ -759,18 +747,19 @@ theorem sim_arr1loop {f : Nat} (ih : Sim f) : Arr1LoopSt (f+1) := by
         obtain ⟨⟨ci', toks2⟩, hinit, h⟩ := bind_eq_ok h
         simp only at h
         have hk : (Init.arr cs).children[i]? = some ci := getChild_ok hci
-        have hAi := hA.child (childTy_arr elem len i) hk
-        obtain ⟨hsi, himp1⟩ := ih.init2 (top := false) hAi hinit
+        have hAi := fun top => (hA top).child (childTy_arr elem len i) hk
+        obtain ⟨hsi, himp1⟩ := ih.init2 (top := false) (hAi false) hinit
         have hs1 : shaped (.array elem len) ((Init.arr cs).setChild i ci') = true := by
           have := shaped_set_child hs (childTy_arr elem len i) hk hsi
           rwa [setAtM_one_arr] at this
         obtain ⟨hs', himp2⟩ := ih.arr1loop ho hs1 h
         refine ⟨hs', fun top g fl => ?_⟩
-        obtain ⟨_, himp1⟩ := ih.init2 (top := top) hAi hinit
+        obtain ⟨_, himp1⟩ := ih.init2 (top := top) (hAi top) hinit
         cases g with
         | zero => exact Imp.of_error rfl
         | succ g =>
-          rw [initList_item _ _ _ _ _ _ _ _ hce, hfirst, ok_bind]
+          refine Imp.of_item hce ?_
+          rw [hfirst, ok_bind]
           by_cases hdg : isDesg toks1 = true
           · rcases isDesg_cases hdg with hb | ⟨n, r, rfl⟩
             · rw [hb] at hbr; exact absurd rfl hbr
@@ -790,7 +779,8 @@ theorem sim_arr1loop {f : Nat} (ih : Sim f) : Arr1LoopSt (f+1) := by
         cases g with
         | zero => exact Imp.of_error rfl
         | succ g =>
-          rw [initList_item _ _ _ _ _ _ _ _ hce, hfirst, ok_bind]
+          refine Imp.of_item hce ?_
+          rw [hfirst, ok_bind]
           by_cases hdg : isDesg toks1 = true
           · rcases isDesg_cases hdg with hb | ⟨n, r, rfl⟩
             · rw [hb] at hbr; exact absurd rfl hbr
